@@ -107,7 +107,7 @@ def session(args):
     rng = random.Random(seed)
     base = np.array([rng.uniform(-3, 3) for _ in range(3)])
     spec = {nm: [rng.choice(KINDS), rand_pose(rng, base), 10 ** rng.uniform(-2, 2)] for nm in NAMES}
-    if rng.random() < 0.25:
+    if rng.random() < 0.4:
         # parallel placement: all three bodies share one orientation (relative rotations are the identity)
         R = spec[NAMES[0]][1][:3, :3].copy() if rng.random() < 0.6 else np.eye(3)
         for nm in NAMES:
